@@ -171,12 +171,32 @@ CLAIMED["C17"] = dict(
     technique="TLA+ trace specification (OutStreamTrace) - recorded traces of the real broker validated by TLC",
     design="6 C17")
 
+CLAIMED["C12"] = dict(
+    text="The Client specification (sender side: FIFO ack queues per kind, PUBREL after PUBREC, completion when the head is terminal; invariants HeadsPending, "
+         "CompleteOnce, NotBeforeAck checked by TLC) is replayed against the library Client over loopback TCP with a scripted peer: up to 3 outstanding requests "
+         "acknowledged in every order incl. duplicates and unknown identifiers; wire packets, identifiers (non-zero, distinct in flight) and the order of completion "
+         "callbacks are compared after every step. The interleaving 'ack processed between write and register' is forced through the *.between yield points "
+         "(gated schedules generated from the specification with the named deviation); forwarded identifiers are observed with two publishers and a subscriber "
+         "that withholds its acks. Both deviations are genuine defects recorded as known findings.",
+    note="Two known findings (register-after-write, forwarded-id) are reported as KNOWN-FINDING, anything else as VIOLATION. Trusted: TLC, harness/client.go, the proc hook "
+         "as barrier, the yield hooks.",
+    technique="TLA+ specification (Client) model-checked with TLC; TLC-generated behaviours and gated schedules replayed into the library client against a scripted peer",
+    design="6 C12")
+CLAIMED["C20"] = dict(
+    text="Client.Connect is run against every CONNACK answer (code 0..5, session present, invalid code, wrong packet, truncated, closed): nil exactly for code 0, else the "
+         "refusal code, no library goroutine left. The dispatch part of the Client specification (local tree filled when the SUBACK is released, emptied at UNSUBACK, each "
+         "request's callback invoked exactly once per delivered message whose topic matches one of its filters, QoS 2 duplicates suppressed; DispatchSound checked by TLC) "
+         "is replayed: overlapping filters, f/# against f, rejected filters, unsubscribe, inbound QoS 0..2 with DUP repeats (transition cover depth 5/6, all paths 3/4).",
+    note="SUBACKs carry as many return codes as the request has filters. Trusted: TLC, harness/client.go, the proc hook as barrier.",
+    technique="TLA+ specification (Client) model-checked with TLC; TLC-generated behaviours replayed into the library client against a scripted peer",
+    design="6 C20")
+
 NOT_APPLICABLE = {
     "C18": "data-race freedom is a property of individual memory accesses under the Go memory model; a TLA+ specification "
            "observes actions, not loads and stores, and could only be bound to the code by hand-placed annotations (DESIGN.md section 7)",
 }
 
-PENDING = "check not built yet (build in progress; see DESIGN.md section 10 for the order)"
+PENDING = "not claimed; check not built (build in progress; see DESIGN.md section 10 for the order)"
 
 
 def main():
